@@ -14,6 +14,6 @@ mkdir -p "$VERIF_OUT"
 for id in "$@"; do
   /verif/run check "$id" "$tier" > "$VERIF_OUT/$id.log" 2>&1; rc=$?
   echo "== $id exit=$rc"
-  grep -a -E "^(VIOLATION|KNOWN-FINDING|HARNESS-ERROR|  kind=|  case:|C[0-9]+ (quick|thorough):)" "$VERIF_OUT/$id.log" | head -${LINES_MAX:-12}
+  grep -a -E "^(VIOLATION|KNOWN-FINDING|HARNESS-ERROR|  kind=|  case:|C[0-9]+ (quick|thorough):)" "$VERIF_OUT/$id.log" | grep -a -v "^KNOWN-FINDING" | cut -c1-220 | head -${LINES_MAX:-12}
 done
 rm -rf "$S" "$VERIF_OUT"
